@@ -2,7 +2,7 @@
 //
 // Emits (1) the numeric constants the C06 parser models and theorems depend on, and
 // (2) for every modelled function a *panic-relevant fingerprint* extracted from its body:
-//   - `<F>_shape : List String` — in source order: every `if` whose condition mentions `len(`/`cap(` or contains an ordering comparison
+//   - `<F>_shape : List String` — in source order: every `if` whose condition mentions `len(`/`cap(`, or is an ordering comparison that guards a return/panic or an index/slice expression
 //     (suffixed " => return" when the branch ends in a return), every index / slice expression on a
 //     slice, array or string, every slice-to-array conversion, every `binary.BigEndian.*` call, every
 //     `panic(...)`, and every call of a method that panics by contract (`IP`, `Domain`, `IPPort`,
@@ -264,7 +264,6 @@ var funcs = []fn{
 	{"ss2022", "*ShadowPacketServerUnpacker", "UnpackInPlace", "ShadowPacketServerUnpack"},
 	{"ss2022", "*ShadowPacketClientUnpacker", "UnpackInPlace", "ShadowPacketClientUnpack"},
 	{"ss2022", "*ShadowStreamConn", "read", "ShadowStreamConnRead"},
-	{"ss2022", "*ShadowStreamConn", "readChunk", "ShadowStreamConnReadChunk"},
 	{"ss2022", "*StreamServer", "HandleStream", "StreamServerHandleStream"},
 	{"ss2022", "*ShadowStreamClientConn", "initRead", "ShadowStreamClientInitRead"},
 	{"ss2022", "", "readOnceExpectFull", "readOnceExpectFull"},
@@ -345,6 +344,18 @@ func hasOrdering(e ast.Expr) bool {
 	return found
 }
 
+func hasIndexing(b *ast.BlockStmt) bool {
+	found := false
+	ast.Inspect(b, func(n ast.Node) bool {
+		switch n.(type) {
+		case *ast.IndexExpr, *ast.SliceExpr:
+			found = true
+		}
+		return !found
+	})
+	return found
+}
+
 func endsInReturn(b *ast.BlockStmt) bool {
 	if b == nil || len(b.List) == 0 {
 		return false
@@ -416,7 +427,10 @@ func shapeOf(p *lpkg, fd *ast.FuncDecl) (shape []string, guards []string) {
 	ast.Inspect(fd.Body, func(n ast.Node) bool {
 		switch x := n.(type) {
 		case *ast.IfStmt:
-			if mentionsLenCap(p, x.Cond) || hasOrdering(x.Cond) {
+			// guards: conditions on len()/cap(); ordering comparisons only when they guard something panic-relevant
+			// (the branch returns / panics, or it contains an index or slice expression) — bookkeeping such as
+			// `if nr > 0 { c.readErr = err }` or `if packetLen > max { err = ... }` is not part of the fingerprint
+			if mentionsLenCap(p, x.Cond) || (hasOrdering(x.Cond) && (endsInReturn(x.Body) || hasIndexing(x.Body))) {
 				s := "if " + p.Src(x.Cond)
 				if endsInReturn(x.Body) {
 					s += " => return"
@@ -582,34 +596,6 @@ func main() {
 				return err
 			}
 			l.BoolDef(m.lean, g, "ss2022."+m.recv+".PackInPlace: every mrand.IntN(x) is under a condition with the conjunct `x > 0`")
-		}
-		// ShadowStreamConn.readChunk slices b[:length+tagSize] without a capacity check of its own: it must be reachable only
-		// through ShadowStreamConn.read, after read's `cap(b) < streamReadMinBufferSize` guard.
-		{
-			calls, inRead := 0, 0
-			for _, f := range ss.Files {
-				for _, d := range f.Decls {
-					fd, ok := d.(*ast.FuncDecl)
-					if !ok || fd.Body == nil {
-						continue
-					}
-					ast.Inspect(fd.Body, func(n ast.Node) bool {
-						if c, ok := n.(*ast.CallExpr); ok {
-							if se, ok := c.Fun.(*ast.SelectorExpr); ok && se.Sel.Name == "readChunk" {
-								calls++
-								if fd.Name.Name == "read" && fd.Recv != nil && ss.Src(fd.Recv.List[0].Type) == "*ShadowStreamConn" {
-									inRead++
-								}
-							}
-						}
-						return true
-					})
-				}
-			}
-			if calls == 0 {
-				return fmt.Errorf("ss2022: no call of readChunk found")
-			}
-			l.BoolDef("readChunkOnlyCalledFromRead", calls == inRead, "every call of (*ShadowStreamConn).readChunk is inside (*ShadowStreamConn).read")
 		}
 		// F4: does the service refuse `direct` + tunnelUDPTargetOnly + non-IP tunnelRemoteAddress at load?
 		sv, err := ld.Load("service")
